@@ -99,6 +99,9 @@ fn ilv_programs() -> Vec<Program> {
         p.setup.weight = 3;
         v.push(p);
     }
+    // a put of another key queued between the two puts of k
+    v.push(mk("put(k);put(other);put(k) unawaited", vec![], vec![vec![Op::Put { k: 1, w: Some(2), ttl_ms: None }, Op::Put { k: 2, w: Some(2), ttl_ms: None }, Op::Put { k: 1, w: Some(3), ttl_ms: None }]]));
+    v.push(mk("put_ttl(k);put(other) || put_ttl(k)", vec![], vec![vec![Op::Put { k: 1, w: Some(2), ttl_ms: Some(5000) }, Op::Put { k: 2, w: Some(2), ttl_ms: None }], vec![Op::Put { k: 1, w: Some(3), ttl_ms: Some(5000) }]]));
     // a delete racing a put of the same key, then (all acknowledged) a probed put
     for (name, init_k, racing) in [
         ("delete(k)||put(k) ; then probed put(k)", Op::Put { k: 1, w: Some(2), ttl_ms: None }, Op::Put { k: 1, w: Some(3), ttl_ms: None }),
@@ -208,6 +211,8 @@ fn spec(ctx: &Ctx, shards: usize) -> SeqSpec {
         Op::Put { k: 1, w: Some(3), ttl_ms: Some(1500) },
         // expiry exactly reachable by the clock steps (1000 + 1000, or 2000): the boundary instant
         Op::Put { k: 1, w: Some(2), ttl_ms: Some(2000) },
+        // heavier than the whole cache (W = 5): on a readable key the answer is still "key already exists"
+        Op::Put { k: 1, w: Some(6), ttl_ms: None },
         Op::ProbedPut { k: 1, w: Some(3), ttl_ms: None },
         Op::ProbedPut { k: 1, w: None, ttl_ms: Some(1500) },
         Op::Delete { k: 1 },
